@@ -18,6 +18,7 @@ type Profile struct {
 	Checkpoint int  // percentage of transactions followed by a forced checkpoint
 	Reopen     int  // percentage of transactions followed by a restart (crash or clean) inside the history
 	OpenMid    int  // percentage of (non-final) transactions that are left in flight while later transactions run and commit; at most two per history
+	Huge       int  // percentage of histories that contain one transaction writing more log (about 600 KB) than the log buffer holds (516 KB) while the pool is large enough not to evict: the buffer-full path of the log manager
 	PostCrash  int  // percentage of histories whose crash images are, after recovery and new statements, crashed and recovered once more
 	Bulk       int  // percentage of statements that touch many pages at once (8-24 long rows inserted / 8-24 rows enlarged), so that one open transaction dirties more pages than the pool holds
 }
@@ -180,6 +181,10 @@ func GenHistory(t *rapid.T, p Profile) *History {
 	}
 	ntx := rapid.IntRange(1, p.MaxTxns).Draw(t, "ntxns")
 	nOpenMid := 0
+	hugeAt := -1
+	if p.Huge > 0 && rapid.IntRange(0, 99).Draw(t, "huge") < p.Huge {
+		hugeAt = rapid.IntRange(0, ntx-1).Draw(t, "hugeat")
+	}
 	for i := 0; i < ntx; i++ {
 		spec := TxnSpec{End: "commit"}
 		if rapid.IntRange(0, 99).Draw(t, "abortdie") < p.AbortPct {
@@ -233,6 +238,24 @@ func GenHistory(t *rapid.T, p Profile) *History {
 				}
 				g.live[tbl] = keep
 			}
+		}
+		if i == hugeAt {
+			// 5 statements x 36 rows x 3400 bytes in table t: ~620 KB of INSERT records without a commit in between
+			def := &h.Tables[0]
+			names := []string{"id", "v", "n"}
+			for b := 0; b < 5; b++ {
+				st := dbh.Stmt{Kind: "insert", Table: def.Name, Cols: names}
+				for r := 0; r < 36; r++ {
+					g.nextID++
+					st.Rows = append(st.Rows, dbh.Row{dbh.IntV(g.nextID), dbh.StrV(fmt.Sprintf("w%d-", g.val()) + strings.Repeat("h", 3400)), dbh.IntV(g.val())})
+					local[def.Name] = append(local[def.Name], g.nextID)
+				}
+				spec.Stmts = append(spec.Stmts, st)
+			}
+			if spec.End == "commit" {
+				g.live = local
+			}
+			h.KB = 1600
 		}
 		spec.Checkpoint = rapid.IntRange(0, 99).Draw(t, "cp") < p.Checkpoint
 		if p.Reopen > 0 && spec.End != "open" && rapid.IntRange(0, 99).Draw(t, "reopen") < p.Reopen {
